@@ -11,6 +11,8 @@ import (
 	"strings"
 	"testing"
 
+	"sigs.k8s.io/controller-runtime/pkg/client"
+
 	vu "github.com/nginx/nginx-gateway-fabric/internal/verifutil"
 )
 
@@ -173,16 +175,27 @@ func TestVerifC03(t *testing.T) {
 		if plus && len(c.Classes) > 0 && c.Classes[0].Name == vpClassName && c.Classes[0].Controller != vpCtlrName {
 			plus = false // known finding D35 (C05): Plus + foreign-controlled configured class panics the generator
 		}
-		w := vpRunState(c, plus)
+		var extra []client.Object
+		var tags []string
+		withParams := false
+		if r.Chance(1, 2) {
+			extra, withParams, tags = c03Policies(r, c)
+		}
+		w := vpRunStateWith(c, plus, extra, withParams)
 		files := w.Files()
 		if files == nil {
 			files = map[string]string{}
 		}
 		term, human := vsFileSetCase(files, plus)
 		human["cluster"] = c
+		human["extra_objects"] = extra
+		for _, tg := range tags {
+			out.Tally("policy", tg)
+		}
+		out.Tally("policy_objects", strconv.Itoa(len(extra)))
 		human["plus"] = plus
 		http := files["/etc/nginx/conf.d/http.conf"]
-		out.Case(term, human, len(http) > 2500, c.Coq()+strconv.FormatBool(plus))
+		out.Case(term, human, len(http) > 2500, c.Coq()+strconv.FormatBool(plus)+strings.Join(tags, ","))
 		out.Tally("plus", strconv.FormatBool(plus))
 		out.Tally("http.conf_kb", strconv.Itoa(len(http)/1024))
 		out.Tally("files", strconv.Itoa(len(files)))
